@@ -3,7 +3,7 @@
 //! Everything else in the harness instantiates `K = usize`; whatever the library does with a key's hash, its
 //! clone or its `Display` text beyond what `usize` shows is exercised here (requests: new, the four edge
 //! operations, dump, obs, q, and bfs/dfs `search`). The model answers these cases like `di`/`sdi`/`un`/`sun`.
-use crate::exec::{fmt_list, Ctx};
+use crate::exec::{fmt_keys, fmt_list, Ctx};
 use crate::oracle::*;
 use std::panic::{catch_unwind, AssertUnwindSafe};
 
@@ -49,6 +49,16 @@ macro_rules! wk_kind {
         fn obs(n: &N) -> String {
             format!("od={} id={} root={} leaf={} orphan={}", n.out_degree(), n.in_degree(), b(n.is_root()), b(n.is_leaf()), b(n.is_orphan()))
         }
+        fn views(g: &G, which: &str) -> Vec<usize> {
+            match which {
+                "g.roots" => g.roots().iter().map(|n| n.key().id).collect(),
+                "g.leaves" => g.leaves().iter().map(|n| n.key().id).collect(),
+                _ => g.orphans().iter().map(|n| n.key().id).collect(),
+            }
+        }
+        fn scc_of(g: &G) -> Option<Vec<Vec<usize>>> {
+            Some(g.scc().iter().map(|c| c.iter().map(|n| n.key().id).collect()).collect())
+        }
         fn q(n: &N, v: usize) -> String {
             let k = WKey::new(v);
             let fo = n.find_outbound(&k).map(|x| x.key().id);
@@ -63,6 +73,12 @@ macro_rules! wk_kind {
         }
         fn obs(n: &N) -> String {
             format!("deg={} orphan={}", n.degree(), b(n.is_orphan()))
+        }
+        fn views(g: &G, _which: &str) -> Vec<usize> {
+            g.orphans().iter().map(|n| n.key().id).collect()
+        }
+        fn scc_of(_g: &G) -> Option<Vec<Vec<usize>>> {
+            None
         }
         fn q(n: &N, v: usize) -> String {
             let k = WKey::new(v);
@@ -80,6 +96,7 @@ macro_rules! wk_mod {
             use gdsl::error::Error;
             use gdsl::$fl::*;
             pub type N = Node<WKey, i64, u32>;
+            pub type G = Graph<WKey, i64, u32>;
             wk_kind!($kind);
 
             fn lists(nodes: &[N]) -> Lists {
@@ -101,6 +118,8 @@ macro_rules! wk_mod {
             }
             pub fn exec_case(case: &str, body: &[String], ctx: &mut Ctx) {
                 let mut nodes: Vec<N> = vec![];
+                let mut graphs: Vec<G> = vec![];
+                let mut refmaps: Vec<std::collections::BTreeMap<usize, i64>> = vec![];
                 for (li, raw) in body.iter().enumerate() {
                     let t: Vec<&str> = raw.split(' ').filter(|x| !x.starts_with('@') && !x.starts_with('#')).collect();
                     let p = |i: usize| -> usize { t[i].parse::<usize>().expect("number in program") };
@@ -108,6 +127,85 @@ macro_rules! wk_mod {
                         nodes.push(N::new(WKey::new(p(1)), t[2].parse::<i64>().unwrap()));
                         ctx.prog.push(raw.clone());
                         ctx.outs.push("ok".into());
+                        continue;
+                    }
+                    if t[0].starts_with("g.") {
+                        // the container subset: a map from key to node, its views and scc, over keys with colliding hashes
+                        let i = p(1);
+                        while graphs.len() <= i {
+                            graphs.push(G::new());
+                            refmaps.push(Default::default());
+                        }
+                        let c18 = ctx.has("c18");
+                        let mut annot: Option<String> = None;
+                        let find = |k: usize| nodes.iter().find(|n| n.key().id == k).expect("unknown key").clone();
+                        let r: Result<String, ()> = catch_unwind(AssertUnwindSafe(|| {
+                            let order = |g: &G| -> String { format!("@order={}", g.iter().map(|(k, _)| k.id.to_string()).collect::<Vec<_>>().join(",")) };
+                            match t[0] {
+                                "g.new" | "g.newcap" => { graphs[i] = G::new(); refmaps[i].clear(); "ok".into() }
+                                "g.insert" => {
+                                    let n = find(p(2));
+                                    let r = graphs[i].insert(n.clone());
+                                    let fresh = !refmaps[i].contains_key(&p(2));
+                                    if c18 && r != fresh { ctx.fail(case, li, "c18", format!("(colliding hashes) insert({}) returned {r} but the key was {}", p(2), if fresh { "absent" } else { "present" })); }
+                                    refmaps[i].entry(p(2)).or_insert(*n.value());
+                                    format!("{r}")
+                                }
+                                "g.remove" => {
+                                    let r = graphs[i].remove(&WKey::new(p(2))).map(|n| (n.key().id, *n.value()));
+                                    let e2 = refmaps[i].remove(&p(2)).map(|v| (p(2), v));
+                                    if c18 && r != e2 { ctx.fail(case, li, "c18", format!("(colliding hashes) remove({}) returned {:?}, the map holds {:?}", p(2), r, e2)); }
+                                    format!("{:?}", r.map(|x| x.0))
+                                }
+                                "g.get" => {
+                                    let r = graphs[i].get(&WKey::new(p(2))).map(|n| (n.key().id, *n.value()));
+                                    let e2 = refmaps[i].get(&p(2)).map(|v| (p(2), *v));
+                                    if c18 && r != e2 { ctx.fail(case, li, "c18", format!("(colliding hashes) get({}) returned {:?}, the map holds {:?}", p(2), r, e2)); }
+                                    match r { Some((k, v)) => format!("Some({k}:{v})"), None => "None".into() }
+                                }
+                                "g.contains" => format!("{}", graphs[i].contains(&WKey::new(p(2)))),
+                                "g.len" => format!("{}", graphs[i].len()),
+                                "g.is_empty" => format!("{}", graphs[i].is_empty()),
+                                "g.to_vec" => { annot = Some(order(&graphs[i])); fmt_keys(&graphs[i].to_vec().iter().map(|n| n.key().id).collect::<Vec<_>>()) }
+                                "g.iter" => {
+                                    annot = Some(order(&graphs[i]));
+                                    let r: Vec<(usize, i64)> = graphs[i].iter().map(|(k, n)| (k.id, *n.value())).collect();
+                                    let m: std::collections::BTreeMap<usize, i64> = r.iter().cloned().collect();
+                                    if c18 && !(r.len() == m.len() && m == refmaps[i]) { ctx.fail(case, li, "c18", format!("(colliding hashes) iter() = {:?} but the map is {:?}", r, refmaps[i])); }
+                                    format!("[{}]", r.iter().map(|(k, v)| format!("{k}:{v}")).collect::<Vec<_>>().join(","))
+                                }
+                                "g.roots" | "g.leaves" | "g.orphans" => { annot = Some(order(&graphs[i])); fmt_keys(&views(&graphs[i], t[0])) }
+                                "g.scc" => {
+                                    annot = Some(order(&graphs[i]));
+                                    match scc_of(&graphs[i]) {
+                                        None => "unsupported".into(),
+                                        Some(cs) => {
+                                            if ctx.has("c11") {
+                                                let members: Vec<usize> = refmaps[i].keys().cloned().collect();
+                                                if let Err(m) = crate::oracle_cont::scc_partition(&lists(&nodes), &members, &cs) {
+                                                    ctx.fail(case, li, "c11", format!("(colliding hashes) {m}"));
+                                                }
+                                            }
+                                            format!("[{}]", cs.iter().map(|c| fmt_keys(c)).collect::<Vec<_>>().join(","))
+                                        }
+                                    }
+                                }
+                                _ => "bad-op".into(),
+                            }
+                        }))
+                        .map_err(|_| ());
+                        ctx.prog.push(match &annot { Some(a) => format!("{raw} {a}"), None => raw.clone() });
+                        match r {
+                            Ok(o) => ctx.outs.push(o),
+                            Err(()) => {
+                                ctx.outs.push("panic".into());
+                                if !ctx.quiet && !ctx.oracles.is_empty() {
+                                    let o = ctx.oracles[0].clone();
+                                    ctx.fail(case, li, &o, format!("`{raw}` panicked (keys with colliding hashes)"));
+                                }
+                                return;
+                            }
+                        }
                         continue;
                     }
                     let nodes_ref = &nodes;
